@@ -315,7 +315,7 @@ func runC12(c *Ctx) {
 
 type paramGate struct {
 	fn, key, flag string
-	extra        string // additional value atom (BODY=BINARYMIME)
+	extra         string // additional value atom (BODY=BINARYMIME)
 }
 
 var paramGates = []paramGate{
